@@ -172,5 +172,5 @@ def inspect(world, k, names, what):
 
 
 def run_case(case, tier):
-    ctx = explore.explore(make_harness(case, tier), max_paths=60000, time_budget_s=400)
+    ctx = explore.explore(make_harness(case, tier), max_paths=(60000 if tier == 'quick' else 2400000), time_budget_s=(400 if tier == 'quick' else 3600))
     return driver.result_from_ctx(ctx)
